@@ -78,6 +78,10 @@ class Node:
                                    sockname=("192.0.2.202", 41001), protocol=hdr.L4Protocols.UDP)
             self.prot.discovery.watch_all_services(_WatL(net))
             self.prot.discovery.find_subscribe_eventgroup(eg)
+            self.eg_any = eg
+            if net.two_subs:     # a second, overlapping auto-subscription (concrete instance): withdrawing one of them leaves the other
+                import dataclasses
+                self.prot.discovery.find_subscribe_eventgroup(dataclasses.replace(eg, instance_id=1))
 
     def call(self, fn):
         self.loop.inject(self.loop._now, fn)
@@ -106,8 +110,9 @@ class _WatL(sd.ClientServiceListener):
 
 
 class Net:
-    def __init__(self, tc, sub_ttl, refresh, burn=0):
+    def __init__(self, tc, sub_ttl, refresh, burn=0, two_subs=False):
         self.burn = burn
+        self.two_subs = two_subs
         self.first_boot = {}
         self.timings = sdenv.timings(INITIAL_DELAY_MIN=tc["initMin"], INITIAL_DELAY_MAX=tc["initMax"], REPETITIONS_MAX=tc["reps"],
                                      REPETITIONS_BASE_DELAY=tc["base"], CYCLIC_OFFER_DELAY=tc["cyclic"], ANNOUNCE_TTL=tc["annTTL"],
@@ -186,6 +191,10 @@ class Net:
             n = self.nodes.get(f["node"])
             if n:
                 n.call(n.prot.start)
+        elif kind == "unfind":      # the application withdraws ONE of its two auto-subscriptions
+            n = self.nodes.get("wat")
+            if n:
+                n.call(lambda: n.prot.discovery.stop_find_subscribe_eventgroup(n.eg_any))
         elif kind == "loss_on":
             self.loss = True
         elif kind == "loss_off":
